@@ -17,6 +17,8 @@ func main() {
 		cmdVerify(os.Args[2:])
 	case "check":
 		cmdCheck(os.Args[2:])
+	case "sweep":
+		cmdSweep()
 	default:
 		fmt.Fprintln(os.Stderr, "unknown command")
 		os.Exit(2)
